@@ -7,13 +7,19 @@
   (`NameOk`: non-empty, characters of `name_regexp`), dimension names likewise, extents ≥ 0, sibling
   names distinct, grids non-empty.  The DAP2 type of every variable is whatever the generated
   `NUMPY_TO_DAP2_TYPEMAP` says (`printDs d = .ok s` means every dtype is in the table).
+
+  A base variable either holds data (`nodata = false`: inside `k` sequences the leading `k` axes of its
+  shape are record axes, which a DDS does not declare) or has none (`nodata = true`, pydap's `DummyData`:
+  its shape is the declared shape; this is what the parser builds).  `dds()` strips the record axes only
+  in the first case (repair b7ad9b3), so the text fixpoint holds for every dataset, array members of
+  sequences included.
 -/
 import Proofs.DdsFixpoint
 import Proofs.DdsSamples
 import Proofs.DdsQuote
 import Proofs.DdsPrintable
 import Proofs.DdsFuel
-import Proofs.DdsExact
+import Proofs.DdsNorm
 import Proofs.DdsDimWitness
 namespace Pydap.C07
 open Pydap Pydap.Dds
@@ -43,71 +49,61 @@ theorem C07_print_then_parse (d : Dataset) (hwf : WFds d) (hty : PrintableL d.ki
   obtain ⟨s, hs⟩ := printDs_ok d hty
   exact ⟨s, hs, parse_print d s hs hwf⟩
 
-/-- What `norm` does to a base variable outside sequences whose dimension names (if any) are one per
-    extent: name and shape are kept, dimension names are kept, an unnamed 1-d array gets its own
-    name as dimension name, and the dtype becomes the parser dtype of its DAP2 type. -/
-theorem C07_norm_base (b : BaseV) (h : b.dims = [] ∨ b.dims.length = b.shape.length) :
-    (normBase b 0).name = b.name ∧ (normBase b 0).shape = b.shape ∧ (normBase b 0).dt = normTy b.dt ∧
-    (normBase b 0).dims = (if b.dims ≠ [] then b.dims else if b.shape.length = 1 then [b.name] else []) := by
+/-- What `norm` does to a base variable below `sq` sequences, with `sh` the shape the DDS declares (the whole
+    shape of a variable without data, the shape without its `sq` record axes of a variable holding data) and
+    dimension names (if any) one per declared extent: name kept, shape = `sh`, dimension names kept, an
+    unnamed 1-d array gets its own name as dimension name, the dtype becomes the parser dtype of its DAP2
+    type, and the result is a variable without data. -/
+theorem C07_norm_base (b : BaseV) (sq : Nat) (sh : List Int)
+    (hsh : sh = if b.nodata = true then b.shape else b.shape.drop sq)
+    (h : b.dims = [] ∨ b.dims.length = sh.length) :
+    (normBase b sq).name = b.name ∧ (normBase b sq).shape = sh ∧ (normBase b sq).dt = normTy b.dt ∧
+    (normBase b sq).dims = (if b.dims ≠ [] then b.dims else if sh.length = 1 then [b.name] else []) ∧
+    (normBase b sq).nodata = true := by
+  have he : effShape b sq = sh := by rw [hsh]; rfl
   unfold normBase
-  simp only [List.drop_zero]
+  rw [he]
+  simp only
   by_cases h1 : b.dims ≠ []
-  · have hl : b.dims.length = b.shape.length := by
+  · have hl : b.dims.length = sh.length := by
       rcases h with h | h
       · exact absurd h h1
       · exact h
     rw [if_pos h1, if_pos h1]
-    refine ⟨rfl, ?_, rfl, ?_⟩
+    refine ⟨rfl, ?_, rfl, ?_, rfl⟩
     · exact List.map_snd_zip (by omega)
     · exact List.map_fst_zip (by omega)
   · rw [if_neg h1, if_neg h1]
-    by_cases h2 : b.shape.length = 1
+    by_cases h2 : sh.length = 1
     · rw [if_pos h2, if_pos h2]
-      refine ⟨rfl, rfl, rfl, ?_⟩
-      match hs : b.shape, h2 with
+      refine ⟨rfl, rfl, rfl, ?_, rfl⟩
+      match sh, h2 with
       | [n], _ => simp
     · rw [if_neg h2, if_neg h2]
-      exact ⟨rfl, rfl, rfl, rfl⟩
+      exact ⟨rfl, rfl, rfl, rfl, rfl⟩
 
-/-- Text fixpoint, full statement: FALSE for the code as it exists. `dds()` strips one leading extent
-    per enclosing Sequence from whatever shape a variable has; the parsed dataset already lacks it. -/
-theorem C07_fixpoint_refuted : ¬ (∀ d : Dataset, printDs (normDs d) = printDs d) :=
-  fun h => seqArrayWitness_not_fixpoint (h seqArrayWitness)
+/-- Text fixpoint, full statement, EVERY dataset (no hypothesis at all: any names, types, extents, nesting,
+    array members of sequences with or without data): printing the tree that the printed DDS parses to gives
+    the same result — the same text, or the same error when the dataset does not print. -/
+theorem C07_fixpoint (d : Dataset) : printDs (normDs d) = printDs d :=
+  printDs_norm d
 
-/-- Text fixpoint under the exact guard: no base variable below `k > 0` sequences has more than `k`
-    extents (sequence members are columns).  No other hypothesis: names, types, extents arbitrary. -/
-theorem C07_fixpoint_partial (d : Dataset) (h : ColsL d.kids 0) : printDs (normDs d) = printDs d :=
-  printDs_norm d h
+/-- print → parse → print reproduces the text exactly, for every well-formed dataset that prints. -/
+theorem C07_print_parse_print (d : Dataset) (s : Text) (hwf : WFds d) (hp : printDs d = .ok s) :
+    ∃ d', parseDds s = .ok d' ∧ printDs d' = .ok s :=
+  ⟨normDs d, parse_print d s hp hwf, by rw [printDs_norm d, hp]⟩
 
-/-- The guard is EXACT: for a well-formed dataset that prints, printing the parsed dataset reproduces the text if and
-    only if sequence members are columns (`ColsL`) — the failing class of the open finding
-    `C07.sequence_array_member.fixpoint` is precisely the complement. -/
-theorem C07_fixpoint_exact (d : Dataset) (s : Text) (hwf : WFds d) (hp : printDs d = .ok s) :
-    printDs (normDs d) = .ok s ↔ ColsL d.kids 0 :=
-  fixpoint_iff d s hwf hp
+/-- The parsed dataset is again in the property's domain (well-formed), so the round trip can be iterated, and
+    it is a normal form: printing and parsing it again returns the very same tree. -/
+theorem C07_norm_idempotent (d : Dataset) :
+    normDs (normDs d) = normDs d ∧ (WFds d → WFds (normDs d)) :=
+  ⟨normDs_idem d, normDs_wf d⟩
 
-/-- print → parse → print reproduces the text exactly (under the same guard). -/
-theorem C07_print_parse_print_partial (d : Dataset) (s : Text) (hwf : WFds d) (hc : ColsL d.kids 0)
-    (hp : printDs d = .ok s) : ∃ d', parseDds s = .ok d' ∧ printDs d' = .ok s :=
-  ⟨normDs d, parse_print d s hp hwf, by rw [printDs_norm d hc, hp]⟩
-
-theorem C07_print_parse_print_refuted :
-    ¬ (∀ (d : Dataset) (s : Text), WFds d → printDs d = .ok s → ∃ d', parseDds s = .ok d' ∧ printDs d' = .ok s) := by
-  intro h
-  cases hp : printDs seqArrayWitness with
-  | error e =>
-    have := seqArrayWitness_not_fixpoint
-    -- the witness prints fine
-    revert hp
-    have l1 : lookup Gen.NUMPY_TO_DAP2_TYPEMAP (dtypeChar ['h']) = some "Int16".toList := by decide
-    simp [seqArrayWitness, printDs, printL, printT, printBase, l1]
-  | ok s =>
-    obtain ⟨d', h1, h2⟩ := h seqArrayWitness s seqArrayWitness_wf hp
-    have h3 := parse_print seqArrayWitness s hp seqArrayWitness_wf
-    rw [h3] at h1
-    have : d' = normDs seqArrayWitness := (Except.ok.inj h1).symm
-    subst this
-    exact seqArrayWitness_not_fixpoint (by rw [h2, hp])
+/-- What the repair relies on: whatever the text (pydap's own, foreign, malformed but accepted), every variable
+    of a parsed dataset is a variable without data — its shape is the declared shape, and `dds()` prints it
+    without stripping anything. -/
+theorem C07_parser_builds_no_data (s : Text) (d : Dataset) (h : parseDds s = .ok d) : NoDataL d.kids :=
+  parseDds_nodata s d h
 
 /-- The domain of the theorems above is reached from raw names: `_quote` (which `DapType.__init__` applies to
     every name) maps every non-empty ASCII name without `/` that does not start with `dap4` to a name
@@ -138,17 +134,20 @@ theorem C07_foreign (d : FDataset) (hwf : FWFds d) : parseDds (ftextDs d) = .ok 
 
 /-! ### non-vacuity (samples and their well-formedness proofs: `Proofs/DdsSamples.lean`) -/
 
--- a dataset with a quoted name, a named 2-d array, an unnamed 1-d array, a structure, a sequence column
--- and a grid is in the domain of `C07_parse_print`, `C07_fixpoint_partial`, `C07_print_parse_print_partial`
-example : WFds sample ∧ ColsL sample.kids 0 ∧ ∃ s, printDs sample = .ok s :=
-  ⟨sample_wf, sample_cols, sample_prints⟩
+-- a dataset with a quoted name, a named 2-d array, an unnamed 1-d array without data, a structure, a sequence
+-- with a column, an array member holding data and an array member without data, and a grid is in the domain of
+-- `C07_parse_print`, `C07_print_parse_print`
+example : WFds sample ∧ ∃ s, printDs sample = .ok s :=
+  ⟨sample_wf, sample_prints⟩
 
 example : PrintableL sample.kids := by
   simp [sample, PrintableL, PrintableT, TyKnown]
   decide
 
-example : ∃ b : BaseV, (b.dims = [] ∨ b.dims.length = b.shape.length) ∧ b.shape.length = 1 :=
-  ⟨⟨['c'], ['i'], [4], []⟩, Or.inl rfl, rfl⟩
+-- `C07_norm_base`: a member of a sequence holding 5 records of 3 values declares `[3]`
+example : ∃ (b : BaseV) (sq : Nat) (sh : List Int), sh = (if b.nodata = true then b.shape else b.shape.drop sq)
+    ∧ (b.dims = [] ∨ b.dims.length = sh.length) ∧ sq = 1 ∧ sh = [3] :=
+  ⟨⟨['i'], ['h'], [5, 3], [], false⟩, 1, [3], by decide, Or.inl rfl, rfl, rfl⟩
 
 example : ∃ raw : Text, raw ≠ [] ∧ (∀ c ∈ raw, c ≠ '/' ∧ c.toNat < 128) ∧ raw.take 4 ≠ ['d', 'a', 'p', '4']
     ∧ quoteName raw ≠ raw :=
@@ -162,7 +161,29 @@ example : parseDdsWith 1000 "Dataset { Int32 a[3; } x;".toList = parseDds "Datas
 -- of `C07_foreign`
 example : FWFds fsample := fsample_wf
 
--- the witness of the refuted statements is itself well-formed
+-- the witness of the former finding (`Sequence Q { Int16 i }` holding 5 records of 3 values) is well-formed,
+-- prints `Int16 i[i = 3];`, parses to a variable without data of declared shape (3,), and that prints the same
+-- text again (`C07_fixpoint`, `C07_print_parse_print`, `C07_parser_builds_no_data` are not vacuous)
 example : WFds seqArrayWitness := seqArrayWitness_wf
+
+example : printDs seqArrayWitness
+    = .ok "Dataset {\n    Sequence {\n        Int16 i[i = 3];\n    } Q;\n} d;\n".toList := seqArrayWitness_prints
+
+example : normDs seqArrayWitness = ⟨['d'], [.seq ['Q'] [.base ⟨['i'], ['>', 'h'], [3], [['i']], true⟩]]⟩ :=
+  seqArrayWitness_norm
+
+example : printDs (normDs seqArrayWitness)
+    = .ok "Dataset {\n    Sequence {\n        Int16 i[i = 3];\n    } Q;\n} d;\n".toList := by
+  rw [C07_fixpoint]; exact seqArrayWitness_prints
+
+example : ∃ s d, parseDds s = .ok d ∧ NoDataL d.kids ∧ d = normDs seqArrayWitness :=
+  ⟨_, _, C07_parse_print seqArrayWitness _ seqArrayWitness_wf seqArrayWitness_prints,
+   C07_parser_builds_no_data _ _ (C07_parse_print seqArrayWitness _ seqArrayWitness_wf seqArrayWitness_prints), rfl⟩
+
+-- the fixpoint also covers datasets that do not print (same error on both sides): a dtype outside the table
+example : printDs (normDs ⟨['d'], [.base ⟨['v'], ['c'], [], [], false⟩]⟩) = .error .key := by
+  rw [C07_fixpoint]
+  have l : lookup Gen.NUMPY_TO_DAP2_TYPEMAP (dtypeChar ['c']) = none := by decide
+  simp [printDs, printL, printT, printBase, l]
 
 end Pydap.C07
